@@ -108,7 +108,7 @@ def leaves_of(log_value):
 
 def run_scenario(prog, scen):
     k, j, op = scen["k"], scen["other"], scen["op"]
-    name = "db k=%d other=%d %s" % (k, j, op)
+    name = "db k=%d other=%d %s%s" % (k, j, op, "" if scen.get("crash_at") is None else " crash@%d" % scen["crash_at"])
     out = {"entry": name, "states": 0, "queries": 0, "solver_s": 0.0, "obligations": 0, "discharged": 0,
            "inconclusive": [], "gaps": {}, "reports": [], "samples": [], "stubs": [], "kinds": {}}
     eng = H.new_engine(prog, loop_bound=64)
@@ -142,7 +142,20 @@ def run_scenario(prog, scen):
         r = call(eng, ctx, log, "load_tree", [])
         if r.variant != "Ok":
             raise Inconclusive("load_tree failed on a well-formed table")
-        res = {"mine": mine, "other": other, "op": op, "new": [], "target": None}
+        res = {"mine": mine, "other": other, "op": op, "new": [], "target": None, "crashed": False}
+        ctx.db.crash_at = None if scen.get("crash_at") is None else ctx.db.durability_points + scen["crash_at"]
+        try:
+            run_op(ctx, res, log)
+        except SQL.CrashDB as c:
+            res["crashed"] = str(c)
+            res["result"] = None
+        ctx.db.crash_at = None
+        res["durability_points"] = ctx.db.durability_points
+        finish(ctx, res, log)
+        return res
+
+    def run_op(ctx, res, log):
+        mine = res["mine"]
         if op[0] == "apply":
             recs = []
             for n in range(op[1]):
@@ -177,6 +190,8 @@ def run_scenario(prog, scen):
             res["result"] = call(eng, ctx, log, "rewind", [Ref(Cell(commit_value(t)))])
         else:
             res["result"] = call(eng, ctx, log, "clear", [])
+
+    def finish(ctx, res, log):
         res["mem_leaves"] = [x for x in leaves_of(log.v)]
         fresh = Cell(new_log(eng, prog))
         r2 = call(eng, ctx, fresh, "load_tree", [])
@@ -184,7 +199,6 @@ def run_scenario(prog, scen):
         res["disk_leaves"] = [x for x in leaves_of(fresh.v)] if res["reload_ok"] else []
         res["rows"] = [dict(r) for r in ctx.db.tables.get(TABLE, [])]
         ctx.scen = res
-        return res
 
     def decide(res, cond, what, key):
         out["obligations"] += 1
@@ -216,9 +230,46 @@ def run_scenario(prog, scen):
                 "mine": [[ev(c), ev(p)] for _, c, p in sc["mine"]], "other": [[ev(c), ev(p)] for _, c, p in sc["other"]],
                 "operation": list(op), "new": [[ev(c), ev(p)] for c, p, _ in sc["new"]],
                 "proof_leaves": [ev(q) for q in sc.get("proof_leaves", [])],
-                "target": ev(sc["target"]) if sc["target"] is not None else None}
+                "target": ev(sc["target"]) if sc["target"] is not None else None,
+                "scenario": {"k": k, "other": j, "op": list(op), "crash_at": scen.get("crash_at")}}
         out["reports"].append(("dblog|%s|%s" % (op[0], key), "%s: %s %s" % (name, what, json.dumps(case)[:300]), case))
         return False
+
+    def crash_oracle(res, sc):
+        """after dying before a durability point and restarting: the log is what it was before or what the
+        operation produces, the other log is untouched, and it opens"""
+        if not sc["crashed"]:
+            out["kinds"]["crash point beyond the operation"] = out["kinds"].get("crash point beyond the operation", 0) + 1
+            return
+        mine, other = sc["mine"], sc["other"]
+        rows = sc["rows"]
+        my_rows = [x for x in rows if x["account_id"].v == 1]
+        other_rows = [x for x in rows if x["account_id"].v == 2]
+        key = "dbcrash|%s|" % op[0]
+        decide(res, z3.BoolVal(sc["reload_ok"]), "after a crash during %s the log cannot be re-opened" % op[0], key + "reopen fails")
+        same_other = len(other_rows) == len(other)
+        decide(res, z3.BoolVal(same_other), "a crash during %s changed another log (%d -> %d rows)" % (op[0], len(other), len(other_rows)), key + "other log changed")
+
+        def rows_are(exp):
+            if len(my_rows) != len(exp):
+                return z3.BoolVal(False)
+            return z3.And(*[first_byte(x["commit_hash"]) == c for x, c in zip(my_rows, exp)]) if exp else z3.BoolVal(True)
+        pre = [c for _, c, _ in mine]
+        new = [c for c, _, _ in sc["new"]]
+        if op[0] in ("apply", "patch"):
+            post = rows_are(pre + new)
+        elif op[0] == "clear":
+            post = rows_are([])
+        elif op[0] == "replace":
+            post = rows_are(new)
+        else:
+            t = sc["target"]
+            n = len(my_rows)
+            post = z3.BoolVal(False)
+            if 0 < n <= len(mine):
+                post = z3.And(mine[n - 1][1] == t, *([mine[q][1] != t for q in range(n, len(mine))] + [rows_are(pre[:n])]))
+        decide(res, z3.Or(rows_are(pre), post), "after a crash during %s the log is neither its state before nor after the operation (%d rows, had %d)" % (
+            op[0], len(my_rows), len(mine)), key + "neither before nor after")
 
     def on_result(res):
         out["states"] += 1
@@ -231,6 +282,9 @@ def run_scenario(prog, scen):
             out["inconclusive"].append("%s: path ended with %s %r" % (name, res.kind, res.err))
             return
         sc = res.value
+        if scen.get("crash_at") is not None:
+            crash_oracle(res, sc)
+            return
         r = sc["result"]
         okr = r.variant == "Ok"
         mine, other = sc["mine"], sc["other"]
@@ -367,4 +421,15 @@ def scenarios_c07(tier):
         if k >= 1:
             for m in sorted(set([k, max(1, k - 1), k + 1])):
                 out.append({"k": k, "other": 1, "op": ("patch", 1, m)})
+    return out
+
+
+def scenarios_c13(tier):
+    """die before the j-th durability point (commit / autocommitted statement) of each operation"""
+    mx = 2 if tier == "quick" else 3
+    out = []
+    for k in range(1, mx + 1):
+        for opx in (("apply", 2), ("rewind",), ("clear",), ("replace", 2, 2)):
+            for j in range(0, 3):
+                out.append({"k": k, "other": 1, "op": opx, "crash_at": j})
     return out
